@@ -367,8 +367,9 @@ func ReadFromTeletext(r io.Reader, o TeletextOptions) (s *Subtitles, err error) 
 			return
 		}
 
+		// The demuxer may return no data and no error when the last packets of the stream contain nothing it can parse
 		// We only parse PES data
-		if d.PES == nil {
+		if d == nil || d.PES == nil {
 			continue
 		}
 
@@ -439,7 +440,8 @@ func teletextPID(dmx *astits.Demuxer, o TeletextOptions) (pid uint16, err error)
 		}
 
 		// PMT data
-		if d.PMT != nil {
+		// The demuxer may return no data and no error when the last packets of the stream contain nothing it can parse
+		if d != nil && d.PMT != nil {
 			// Retrieve valid teletext PIDs
 			var pids []uint16
 			for _, s := range d.PMT.ElementaryStreams {
